@@ -400,7 +400,11 @@ impl LinkReport {
 
         let mut svg = SVGWriter::new();
         let last_updated = Utc::now();
-        vg.do_it(false, false, false, &mut svg);
+        // The layout crate asserts that the graph has nodes. Until the first
+        // link report has been collected there are none.
+        if !nodes.is_empty() {
+            vg.do_it(false, false, false, &mut svg);
+        }
         svg.draw_text(
             Point::new(200., 20.),
             &format!("Last updated: {}", last_updated.to_rfc2822()),
